@@ -6,9 +6,9 @@ from lib.prop import Prop
 
 class C20(Prop):
     pid = "C20"
-    lean_targets = ["M17.Props.C20"]
+    lean_targets = ["M17.Props.C20", "M17.Props.C03"]
     theorems = ["M17.C20.type_report_voice", "M17.C20.type_report_total", "M17.C20.can_report", "M17.C20.voice_lsf_is_stream",
-                "M17.C20.audio_bytes_multiple_of_640", "M17.C20.callsign_report"]
+                "M17.C20.audio_bytes_multiple_of_640", "M17.C20.callsign_report", "M17.C03.lock_needs_decodable_frames"]
     level_text = ("PARTIAL proof. Lean 4 theorems for the decision logic of the receiver's link report, for ALL inputs: the TYPE field the "
                   "transmitter builds for a voice stream with any CAN 0..15 (Spec.Tx.voiceType) is classified as a stream (never packet mode), is "
                   "printed as STR:V/V, and its CAN field prints the transmitter's CAN; the report is total over all 65536 TYPE values; the "
@@ -98,10 +98,14 @@ class C20(Prop):
             cmd_m = [mod, "-S", src, "-C", str(can)] + (["-D", dst] if dst else []) + (["-i"] if inv else [])
             pm = subprocess.run(cmd_m, input=raw, stdout=subprocess.PIPE, stderr=subprocess.PIPE, timeout=600)
             bb = pm.stdout
+            lead_info = None
             if lead:
                 k = rng.choice([2400, 48000, 96000])
                 sig = rng.choice([30, 300, 3000])
-                bb = b"".join(struct.pack("<h", max(-32768, min(32767, int(rng.gauss(0, sig))))) for _ in range(k)) + bb
+                lseed = rng.randrange(10 ** 6)
+                lr = __import__("random").Random(lseed)
+                lead_info = {"samples": k, "sigma_int16": sig, "seed": lseed, "how": "random.Random(seed).gauss(0, sigma) per sample, clipped to int16, little endian, in front of the baseband"}
+                bb = b"".join(struct.pack("<h", max(-32768, min(32767, int(lr.gauss(0, sig))))) for _ in range(k)) + bb
             cmd_d = [dem, "-l"] + (["-i"] if inv else [])
             pd = subprocess.run(cmd_d, input=bb, stdout=subprocess.PIPE, stderr=subprocess.PIPE, timeout=600)
             err = pd.stderr.decode(errors="replace")
@@ -146,7 +150,7 @@ class C20(Prop):
                 os.makedirs(os.path.dirname(bbp), exist_ok=True)
                 open(bbp, "wb").write(raw)
                 ctx.violate(sig, f"m17-mod {' '.join(cmd_m[1:])} | m17-demod {' '.join(cmd_d[1:])} ({akind} audio, {secs} s, leading noise {lead}): " + "; ".join(probs[:3]),
-                            {"stream": "pipeline", "mod_cmd": cmd_m, "demod_cmd": cmd_d, "audio_file": bbp, "lead": lead, "problems": probs,
+                            {"stream": "pipeline", "mod_cmd": cmd_m, "demod_cmd": cmd_d, "audio_file": bbp, "lead": lead_info, "problems": probs,
                              "stderr_tail": err[-1500:], "how": "m17-mod < audio_file | m17-demod -l"})
         return
 
